@@ -155,6 +155,8 @@ def check_evolution(case: typing.Any, ctx: Ctx) -> Info:
     if not cc.same_outcome(c_new, exp_model, exp_ref):
         raise HarnessError("evolution model and reference decoder disagree: %r vs %r" % (exp_model, exp_ref))
     require(cc.same_outcome(c_new, got, exp_model), "old-writer-new-reader", exp_model, got, "%s bytes %s" % (name, data_old.hex()))
+    # the values supplied for fields the writer did not know are the caller's like everything else in the result
+    cc.check_result_ownership(t_new, c_new, data_old, False, got, "old-writer-new-reader: %s bytes %s" % (name, data_old.hex()))
 
     # new writer -> old reader: fields unknown to the reader are skipped, everything after the nested object is intact
     got = cc.deserialize_outcome(t_old, c_old, data_new, False, what="deserialize-old-from-new")
